@@ -68,22 +68,36 @@ def pegOracle (prop : String) (c : Case) (impl : String) (modelObs : String) : S
   -- behaves exactly as the Lean model of the pinned code does.
   let prop := if Spec.changesFilter c.g && impl == modelObs
     then prop ++ ": F27-eager-skip-under-temporary-filter" else prop
-  match Spec.peg c.text 4000 c.g s0 with
-  | .fuel => "SKIP reference evaluator out of fuel"
-  | .unsupported => "SKIP grammar outside the PEG family"
-  | .fail =>
-    if res.startsWith "err:" then "ok"
-    else s!"FAIL {prop}: reference semantics rejects this input but the parser returned {res}"
-  | .ok v s1 =>
-    match okParts res with
-    | none => s!"FAIL {prop}: reference semantics accepts (value {GWire.showVal v}) but the parser returned {res}"
-    | some (iv, f, rest) =>
-      let ev := normalizeSp (GWire.showVal v)
-      let problems :=
-        (if normalizeSp iv == ev then [] else [s!"value {iv} expected {ev}"]) ++
-        (if rest == showView s1 then [] else [s!"remaining stream {rest} expected {showView s1}"]) ++
-        (if f == (if c.filter.isSome then "1" else "0") then [] else ["filter not restored"])
-      if problems.isEmpty then "ok" else s!"FAIL {prop}: " ++ " && ".intercalate problems
+  -- every application of the same parser object is judged: after a success the next one
+  -- continues where the returned lexer stands, after a failure it starts from the same place
+  let results := (firstResult impl).splitOn "&"
+  let rec walk (fuel : Nat) (k : Nat) (s : Spec.PState) : List String → List String
+    | [] => []
+    | res :: more =>
+      match fuel with
+      | 0 => []
+      | fuel + 1 =>
+      let tag := if k == 0 then "" else s!"application {k + 1}: "
+      match Spec.peg c.text 4000 c.g s with
+      | .fuel => ["?fuel"]
+      | .unsupported => ["?unsupported"]
+      | .fail =>
+        (if res.startsWith "err:" then []
+         else [s!"{tag}reference semantics rejects this input but the parser returned {res}"]) ++
+        walk fuel (k + 1) s more
+      | .ok v s1 =>
+        match okParts res with
+        | none => [s!"{tag}reference semantics accepts (value {GWire.showVal v}) but the parser returned {res}"]
+        | some (iv, f, rest) =>
+          let ev := normalizeSp (GWire.showVal v)
+          (if normalizeSp iv == ev then [] else [s!"{tag}value {iv} expected {ev}"]) ++
+          (if rest == showView s1 then [] else [s!"{tag}remaining stream {rest} expected {showView s1}"]) ++
+          (if f == (if c.filter.isSome then "1" else "0") then [] else [s!"{tag}filter not restored"]) ++
+          walk fuel (k + 1) s1 more
+  let problems := walk 8 0 s0 results
+  if problems.contains "?fuel" then "SKIP reference evaluator out of fuel"
+  else if problems.contains "?unsupported" then "SKIP grammar outside the PEG family"
+  else if problems.isEmpty then "ok" else s!"FAIL {prop}: " ++ " && ".intercalate problems
 
 /-! ### parsing the implementation's observation -/
 
